@@ -321,7 +321,25 @@ def same_value(a, b):
         return False
     if isinstance(b, (Const,)) and isinstance(a, (Obj, Cls, Lst, Dct, Tup)):
         return False
-    if isinstance(a, Tup) and isinstance(b, Tup):
+    if isinstance(a, (Lst, Tup, Dct)) and isinstance(b, (Lst, Tup, Dct)) and type(a) is not type(b):
+        return False
+    if isinstance(a, Dct) and isinstance(b, Dct):
+        if len(a.pairs) != len(b.pairs):
+            return False
+        res = True
+        for k, v in a.pairs:
+            w = b.get(k)
+            if w is None:
+                if all(same_value(k, k2) is False for k2, _ in b.pairs):
+                    return False
+                return None
+            r = same_value(v, w)
+            if r is False:
+                return False
+            if r is None:
+                res = None
+        return res
+    if isinstance(a, (Tup, Lst)) and isinstance(b, (Tup, Lst)) and type(a) is type(b):
         if len(a.items) != len(b.items):
             return False
         res = True
@@ -441,7 +459,7 @@ BUILTIN_NAMES = {
     "str", "int", "float", "bool", "bytes", "min", "max", "any", "all", "sum", "sorted", "filter", "map",
     "callable", "dir", "print", "super", "Exception", "ValueError", "TypeError", "KeyError", "IndexError",
     "AssertionError", "NotImplementedError", "enumerate", "zip", "range", "iter", "next", "repr", "type",
-    "object", "id", "abs", "round", "frozenset", "reversed", "BaseException", "AttributeError", "cast", "vars", "divmod", "format",
+    "object", "id", "abs", "round", "frozenset", "reversed", "BaseException", "AttributeError", "cast", "vars", "divmod", "format", "StopIteration", "RuntimeError", "OSError",
 }
 
 
@@ -776,6 +794,8 @@ class Interp:
     def concrete_iter(self, v):
         if isinstance(v, (Tup, Lst)):
             return list(v.items)
+        if isinstance(v, Obj) and isinstance(v.attrs.get("__iter__"), (Lst, Tup)):
+            return list(v.attrs["__iter__"].items)
         if isinstance(v, Dct):
             return [k for k, _ in v.pairs]
         if isinstance(v, Term) and v.op == "view":
@@ -1155,6 +1175,10 @@ class Interp:
                 return Const(base.v[slice(lo.v if lo else None, hi.v if hi else None, stp.v if stp else None)])
             if isinstance(base, (Tup, Lst)) and all(x is None or isinstance(x, Const) for x in (lo, hi, stp)):
                 return type(base)(base.items[slice(lo.v if lo else None, hi.v if hi else None, stp.v if stp else None)])
+            if isinstance(base, Const) and (base.v is None or isinstance(base.v, (int, float, bool))):
+                x = Term("exc", "TypeError", f"{type(base.v).__name__} is not subscriptable")
+                self.emit("raise", e, value=x)
+                raise _Raise(x, e)
             return Term("sub", base, Term("slice", lo, hi, stp), node=e)
         key = self.eval(e.slice, frame)
         if isinstance(base, Dct):
@@ -1174,6 +1198,10 @@ class Interp:
                 return Const(base.v[key.v])
             except Exception:
                 raise _Raise(Term("exc", "IndexError"), e)
+        if isinstance(base, Const) and (base.v is None or isinstance(base.v, (int, float, bool))):
+            x = Term("exc", "TypeError", f"{type(base.v).__name__} is not subscriptable")
+            self.emit("raise", e, value=x)
+            raise _Raise(x, e)
         hint = self.value_hint_of_container(base)
         t = Term("sub", base, key, hint=hint, node=e)
         self.emit("subscript", e, base=base, key=key, term=t)
@@ -1787,6 +1815,32 @@ class Interp:
                 keys = [sk(x) for x in items]
                 if all(k is not None for k in keys):
                     return Lst([x for _, x in sorted(zip(keys, items), key=lambda t: t[0])])
+        if name in ("frozenset", "set") and len(args) <= 1:
+            if not args:
+                return Tup([])
+            items = self.concrete_iter(args[0])
+            if items is not None:
+                out = []
+                for x in items:
+                    if not any(same_value(x, y) is True for y in out):
+                        out.append(x)
+                return Tup(out)
+        if name == "next" and 1 <= len(args) <= 2:
+            items = self.concrete_iter(args[0])
+            if items is not None:
+                if items:
+                    return items[0]
+                if len(args) == 2:
+                    return args[1]
+                x = Term("exc", "StopIteration")
+                self.emit("raise", node, value=x)
+                raise _Raise(x, node)
+        if name == "iter" and len(args) == 1 and self.concrete_iter(args[0]) is not None:
+            return Lst(self.concrete_iter(args[0]))
+        if name == "zip" and len(args) >= 1:
+            cols = [self.concrete_iter(a) for a in args]
+            if all(c is not None for c in cols):
+                return Lst([Tup(list(t)) for t in zip(*cols)])
         if name == "reversed" and len(args) == 1:
             items = self.concrete_iter(args[0])
             if items is not None:
@@ -1865,7 +1919,25 @@ class Interp:
             if all(isinstance(a, Const) for a in args):
                 return Const(min(args[0].v, args[1].v) if name == "min" else max(args[0].v, args[1].v))
             if all((isinstance(a, Const) and isinstance(a.v, int)) or (isinstance(a, Term) and a.pytype == "int") for a in args):
-                return Term("call", Builtin(name), tuple(args), (), pytype="int")
+                t = Term("call", Builtin(name), tuple(args), (), pytype="int")
+                los, his = [], []
+                for a in args:
+                    if isinstance(a, Const):
+                        los.append(a.v); his.append(a.v)
+                    else:
+                        lo_, hi_ = self.bounds_of(a)
+                        los.append(lo_); his.append(hi_)
+                if name == "min":
+                    lo = min(los) if all(x is not None for x in los) else None
+                    known = [x for x in his if x is not None]
+                    hi = min(known) if known else None
+                else:
+                    known = [x for x in los if x is not None]
+                    lo = max(known) if known else None
+                    hi = max(his) if all(x is not None for x in his) else None
+                if lo is not None or hi is not None:
+                    self.__dict__.setdefault("_bounds", {})[id(t)] = (t, lo, hi)
+                return t
         if name == "int" and len(args) == 1 and not isinstance(args[0], Const):
             return Term("call", Builtin(name), tuple(args), (), pytype="int")
         if name == "float" and len(args) == 1 and not isinstance(args[0], Const):
